@@ -3,7 +3,14 @@ SPEC = {
     'harness': 'hC25',
     'coq_dir': 'C25',
     'claimed': True,
-    'theorems': ['C25_converges', 'C25_converges_nonvacuous', 'C25_below_margin_order_dependent'],
+    'theorems': ['C25_converges', 'C25_converges_nonvacuous', 'C25_below_margin_order_dependent',
+                 'C25_ext_conservative', 'C25_ext_conservative_nonvacuous',
+                 'C25_ext_converges', 'C25_ext_converges_nonvacuous', 'C25_tree_ok_sound', 'C25_heaviest_through_sound',
+                 'C25_converges_unkept_refuted', 'C25_evicted_ancestor_example', 'C25_expired_ancestor_example',
+                 'C25_redelivery_converges', 'C25_finalizer_on_best_chain',
+                 'C25_finalized_stays_refuted', 'C25_finalized_reset_example', 'C25_finalized_stays_partial',
+                 'C25_finalized_stays_steady', 'C25_finalized_stays_nonvacuous',
+                 'C25_stale_pointer_example', 'C25_best_block_cmp_example', 'C25_check_guard_is_theorem_guard'],
     'allowed_axioms': [],
     'shard': 12,
     'rule': 'a factory test node builds executed block trees rooted at the genesis block (one "none" transaction per '
@@ -17,7 +24,23 @@ SPEC = {
             'at the end the hash at every height, last header, GetTx of every delivered block. kinds are prefixed '
             'guarded/unguarded by whether the theorem\'s guard (unique heaviest connected block at height >= 12) '
             'holds for the delivered set. non-trivial = the run contains an orphan or a reorganisation / orphan '
-            'cascade; distinct = distinct Gallina case terms',
+            'cascade; distinct = distinct Gallina case terms. Extended runs (kinds ext/..., case CExt, model '
+            'ModelExt.v), each on a fresh node: ext/fill-10240 (once): three trunk blocks and an unconnected block '
+            'wait in the pool, 10239 cheap unconnected blocks (random parent hash, never executed) fill it to '
+            'maxOrphanBlocks and push the oldest out one by one (two needed blocks and one unconnected one), the '
+            'trunk arrives, the dropped blocks are delivered again; ext/expiry(-redeliver): orders with orphans '
+            'while types.SetTimeDelta jumps between -300 s, 0 and +300 s (ticks 0/3/6 in the model, ttl 5 ticks: '
+            'an orphan received at tick 0 is expired at tick 6), a few unconnected blocks, optionally the whole '
+            'tree again in creation order; ext/finalize-any|guarded|witness: EventSnowmanAcceptBlk messages to the '
+            'blockchain module between deliveries (right block, wrong height, a hash nobody has, an old height) on '
+            'trees with a long branch off a low trunk block (guarded = every finalize target leaves no block off '
+            'its branches at its height+12 or above; witness = the refutation witness of '
+            'C25_finalized_stays_refuted); ext/bestcmp: EnableBestBlockCmp on with a consensus module that prefers '
+            'the smaller hash (solo wrapped), trees with equal-time siblings at and below the tip. Observed per '
+            'event: ProcessBlock results, tip, its stored td, GetFinalizedBlock; at the end hash by height, '
+            'IsKnownOrphan of every delivered hash, GetTx. non-trivial (extended) = the finalizer\'s choice changed, '
+            'a delivered block was found neither stored nor pooled after an event or was pooled twice, the tip '
+            'moved to a sibling (bestcmp), or the fill run',
     'trusted_base': [
         'block validity and execution are an oracle: every block of the tree executes without error on any branch '
         '(the harness builds such blocks); rejection of invalid blocks is C27',
@@ -26,11 +49,22 @@ SPEC = {
         'pointers from the tip); they coincide while the view is a parent-linked chain, which the correspondence '
         'check observes through the per-delivery tip and final hash-by-height',
         'difficulty.CalcWork (C20) turns Difficulty bits into the per-block work used by the model',
+        'extended model: receive times are one value per delivery (AddOrphanBlock reads the clock several times); '
+        'orphans with equal expiration are ordered by insertion (the node\'s map order decides; its nanosecond '
+        'clock does not produce ties); the harness abstracts real time to ticks of 100 s (valid while a run takes '
+        '< 90 s, checked per run); maxOrphanBlocks >= 1 (with 0 the code dereferences a nil oldestOrphan); '
+        'util.CmpBestBlock is an oracle (the consensus module\'s answer); HaveBlock(hash, height) is modelled as '
+        '"hash in the view and indexed at that height"; the finalize handler runs on its own goroutine: the '
+        'harness waits until it has returned (or parked on the health channel) before the next event',
     ],
     'assumptions': [
-        'the finalized height is constant during the deliveries (0 without a finalizer); enableBestBlockCmp off; '
-        'not a para chain; consensus may roll back (NoneRollback off)',
-        'fewer than 10240 orphans and 102400 indexed blocks, no orphan older than 10 minutes (no eviction/expiry)',
+        'C25_converges (Model.v): the finalized height is constant during the deliveries, enableBestBlockCmp off, '
+        'fewer than 10240 orphans, no orphan older than 10 minutes - C25_ext_conservative shows this is the '
+        'extended model when nothing is dropped and the choice does not move; the C25_ext_* theorems drop these '
+        'assumptions (guards kept_all / steady instead)',
+        'not a para chain; consensus may roll back (NoneRollback off); fewer than 102400 indexed blocks; the '
+        'finalizer\'s background tasks (lazyStart, healthCheck, resetEngine) do not fire (they need >= 10 peers / '
+        'minutes of wall time)',
         'deliveries are sequential (ProcessBlock from one goroutine)',
         'difficulties are non-negative and the root height is >= 0',
     ],
@@ -40,11 +74,23 @@ SPEC = {
                       'the finalized height, best chain = its ancestors, stored td = its td); the Go node agrees with '
                       'the model per delivery on every generated run; the persisted-chain half of the statement is '
                       'checked on the node (hash at every height, last header, transaction index of winning and '
-                      'losing branches)',
-        'level_note': 'block execution is an oracle; the finalizer does not move; orphan-pool and index capacity '
-                      'limits are not reached; state-at-tip equality is covered through the header state hash only',
+                      'losing branches). Extended (ModelExt.v, proved conservative over the first model): the same '
+                      'for deliveries against the orphan pool\'s expiry and 10240 limit, finalize events between '
+                      'deliveries and best-block comparison - unbounded theorems with boolean guards (nothing needed '
+                      'stays dropped, no delivery lowers the finalizer\'s choice), re-delivery after any history, '
+                      'the choice always on the best chain; partial for "a finalized block stays on the best chain" '
+                      '(refuted for the code as it is: known finding 1, holds under the fin_safe / steady guards)',
+        'level_note': 'block execution is an oracle; state-at-tip equality is covered through the header state '
+                      'hash only. Extended model (orphan expiry / 10240 limit with the stale oldest pointer, moving '
+                      'finalizer with connectBestChain\'s reset, best-block comparison): convergence to the '
+                      'heaviest block among the branches through the finalized block when no needed block stays '
+                      'dropped and no delivery lowers the choice (C25_ext_converges), after ANY history once the '
+                      'tree is delivered again parents first (C25_redelivery_converges), the choice is always on '
+                      'the best chain (C25_finalizer_on_best_chain); the full claims without the guards are refuted '
+                      '(C25_converges_unkept_refuted; C25_finalized_stays_refuted = known finding 1: a finalized '
+                      'block is reorganised away by a heavier branch reaching finalized+12, reproduced on nodes)',
         'technique': 'Coq proof (invariants by induction over delivery histories, fuel-bounded loops shown not to run '
                      'out) + in-kernel correspondence check against test nodes',
     },
-    'harness_timeout': {'quick': 400, 'thorough': 3600},
+    'harness_timeout': {'quick': 600, 'thorough': 5400},
 }
